@@ -267,6 +267,15 @@ def Tc.inherit (r : Rule) : Option Tc → Tc
 def reload (s : St) (rules : List Rule) : St :=
   { s with tcs := reuseBuild (fun t => t.rule) Tc.inherit (rules.filter Rule.valid) s.tcs }
 
+/-- `hotspot.LoadRulesOfResource(res, rules)`: the controllers of the other resources stay; an empty list (or one without a
+    valid rule of this resource) leaves the resource without rules — its cells are gone, a later load builds fresh
+    controllers; rules naming another resource are skipped ("unmatched resource name") -/
+def reloadRes (s : St) (res : String) (rules : List Rule) : St :=
+  let others := s.tcs.filter (fun t => !(t.rule.res == res))
+  let mine := s.tcs.filter (fun t => t.rule.res == res)
+  let new := rules.filter (fun r => r.valid && r.res == res)
+  { s with tcs := others ++ reuseBuild (fun t => t.rule) Tc.inherit new mine }
+
 /-- the op language of the correspondence driver, as data (what the theorems quantify over) -/
 inductive Op where
   | entry (id res : String) (args : List Val) (atts : List (String × Val))
